@@ -985,6 +985,12 @@ func (g *generator) tryStmt(sc *scope) Stmt {
 				c.Types = append(c.Types, g.catchType())
 				g.use("catch.union")
 			}
+			if !g.off("catch.empty") && g.r.Intn(6) == 0 {
+				// a catch clause that swallows the exception with an empty body
+				g.use("catch.empty")
+				t.Catches = append(t.Catches, c)
+				continue
+			}
 			sc.catchVars = append(sc.catchVars, c.Var)
 			g.label++
 			c.Body = append(c.Body, &Echo{Args: []Expr{&StrLit{fmt.Sprintf("C%d:", g.label)}, nl()}})
